@@ -22,6 +22,8 @@ Ids implemented (C01 unless noted):
   std-predicate-as-comparison-operand  static (C09): LIKE / IN predicate used as an operand of a comparison
   std-floor-ceiling-not-sql       static (C09): floor()/ceiling() in the standard dialect
   duration-empty                  static (C09): a duration literal without components
+  sqlite-round-trunc-negative     dynamic (C01): the filter contains round() and the row makes the reference value of its
+                                  argument <= -1/2 (the SQLite dialect renders round(x) as TRUNC(x + 0.5))
 ORM properties (C02 / C03 / C04 / C15):
   sqlite-like-ascii-case, like-field-pattern-wildcards   dynamic, as above; the second one is also stated on the filter:
                                   the reference *value* of a non-literal 2nd argument of contains/startswith/endswith
@@ -85,7 +87,19 @@ def _not_explained_by_real_div(ctx) -> Any:
     return ctx["sql_keep"] != adj
 
 
+def _not_round_negative(ctx) -> Any:
+    """sqlite-round-trunc-negative: some round() argument evaluates to <= -1/2 under the row (reference value)."""
+    conds = []
+    for v in ctx.get("round_args", []):
+        neg_den = v.den < 0
+        n = z3.If(neg_den, -v.num, v.num)
+        d = z3.If(neg_den, -v.den, v.den)
+        conds.append(z3.Or(v.null, 2 * n > -d))          # argument > -1/2
+    return z3.And(conds) if conds else V.TRUE
+
+
 DYNAMIC: Dict[str, Callable[[dict], Any]] = {
+    "sqlite-round-trunc-negative": _not_round_negative,
     "sa-div-true-division": _not_explained_by_real_div,
     "django-concat-null-as-empty": _not_coalesced_null,
     "sqlite-like-ascii-case": _not_case_region,
